@@ -29,17 +29,22 @@ theorem mem_sortKV (x : Bytes × List Bytes) (l : List (Bytes × List Bytes)) :
   | nil => simp
   | cons y ys ih => simp only [List.foldr_cons, mem_insertKV, ih, List.mem_cons]
 
-/-- every forwarded field comes from a non-excluded entry of the map that has at least one value -/
-theorem mem_outFields {h : Hdr} {f : Bytes × Bytes} (hf : f ∈ outFields h) :
-    ∃ vs, (f.1, vs) ∈ h ∧ vs ≠ [] ∧ excluded26 f.1 = false := by
+/-- every forwarded field comes from a non-excluded entry of the map: one of its values, sanitised -/
+theorem mem_outFields' {h : Hdr} {f : Bytes × Bytes} (hf : f ∈ outFields h) :
+    ∃ vs v, (f.1, vs) ∈ h ∧ v ∈ vs ∧ f.2 = sanitize v ∧ excluded26 f.1 = false := by
   unfold outFields at hf
   obtain ⟨kv, hkv, hin⟩ := List.mem_flatMap.mp hf
   obtain ⟨v, hv, rfl⟩ := List.mem_map.mp hin
   have h1 := (mem_sortKV kv _).mp hkv
   obtain ⟨h2, h3⟩ := List.mem_filter.mp h1
-  refine ⟨kv.2, h2, ?_, ?_⟩
-  · intro e; rw [e] at hv; cases hv
-  · simpa using h3
+  exact ⟨kv.2, v, h2, hv, rfl, by simpa using h3⟩
+
+/-- every forwarded field comes from a non-excluded entry of the map that has at least one value -/
+theorem mem_outFields {h : Hdr} {f : Bytes × Bytes} (hf : f ∈ outFields h) :
+    ∃ vs, (f.1, vs) ∈ h ∧ vs ≠ [] ∧ excluded26 f.1 = false := by
+  obtain ⟨vs, v, h1, h2, _, h4⟩ := mem_outFields' hf
+  refine ⟨vs, h1, ?_, h4⟩
+  intro e; rw [e] at h2; cases h2
 
 theorem hopStep_subset {h : Hdr} {k : Bytes} {kv : Bytes × List Bytes} (hm : kv ∈ hopStep h k) : kv ∈ h := by
   unfold hopStep at hm
